@@ -72,6 +72,21 @@ func init() {
 		res := fr.fn.Signature.Results()
 		cell := new(Value)
 		*cell = zero(deref(res.At(0).Type()))
+		// ctx.Writer = &ctx.writermem, so that ctx.Writer.Status() reads the recorded status
+		ct := deref(res.At(0).Type()).Underlying().(*types.Struct)
+		wi, mi := -1, -1
+		for i := 0; i < ct.NumFields(); i++ {
+			switch ct.Field(i).Name() {
+			case "Writer":
+				wi = i
+			case "writermem":
+				mi = i
+			}
+		}
+		if wi >= 0 && mi >= 0 {
+			st := (*cell).(Struct)
+			st[wi] = Iface{T: types.NewPointer(ct.Field(mi).Type()), V: &st[mi]}
+		}
 		return Tuple{cell, (*Value)(nil)}
 	})
 	for _, n := range []string{"AbortWithStatusJSON", "JSON", "AbortWithStatus", "Header", "Status", "Abort"} {
@@ -147,4 +162,84 @@ func init() {
 		}
 		return Iface{}
 	})
+}
+
+func init() {
+	// gin.Context.ClientIP without forwarding headers: the host part of the connection's remote address
+	reg("(*github.com/gin-gonic/gin.Context).ClientIP", func(m *Machine, fr *frame, a []Value) Value {
+		ctx := a[0].(*Value)
+		ct := deref(fr.fn.Signature.Recv().Type()).Underlying().(*types.Struct)
+		for i := 0; i < ct.NumFields(); i++ {
+			if ct.Field(i).Name() != "Request" {
+				continue
+			}
+			reqp, _ := (*ctx).(Struct)[i].(*Value)
+			if reqp == nil {
+				return MkStr("")
+			}
+			rt := deref(ct.Field(i).Type()).Underlying().(*types.Struct)
+			for j := 0; j < rt.NumFields(); j++ {
+				if rt.Field(j).Name() == "RemoteAddr" {
+					ra := (*reqp).(Struct)[j].(Str)
+					if !ra.IsConc() {
+						panic(unsupported("ClientIP: symbolic RemoteAddr"))
+					}
+					if k := strings.LastIndex(ra.S, ":"); k >= 0 {
+						return MkStr(strings.Trim(ra.S[:k], "[]"))
+					}
+					return ra
+				}
+			}
+		}
+		return MkStr("")
+	})
+	abort := func(m *Machine, fr *frame, a []Value) {
+		ctx := a[0].(*Value)
+		ct := deref(fr.fn.Signature.Recv().Type()).Underlying().(*types.Struct)
+		for i := 0; i < ct.NumFields(); i++ {
+			if ct.Field(i).Name() == "index" {
+				(*ctx).(Struct)[i] = BV(widthOf(ct.Field(i).Type()), 63) // abortIndex
+			}
+		}
+	}
+	for _, n := range []string{"AbortWithStatusJSON", "AbortWithStatus", "Abort"} {
+		n := n
+		reg("(*github.com/gin-gonic/gin.Context)."+n, func(m *Machine, fr *frame, a []Value) Value {
+			m.trace = append(m.trace, Event{Name: "gin." + n, Args: a[1:]})
+			abort(m, fr, a)
+			if n != "Abort" {
+				ginSetStatus(fr, a)
+			}
+			return nil
+		})
+	}
+	reg(modPathConst+"/internal/auth.LogAndDelayError", noop)
+}
+
+// ginSetStatus records the response status in ctx.writermem.status (what WriteHeader does).
+func ginSetStatus(fr *frame, a []Value) {
+	ctx := a[0].(*Value)
+	ct := deref(fr.fn.Signature.Recv().Type()).Underlying().(*types.Struct)
+	for i := 0; i < ct.NumFields(); i++ {
+		if ct.Field(i).Name() != "writermem" {
+			continue
+		}
+		wt := ct.Field(i).Type().Underlying().(*types.Struct)
+		for j := 0; j < wt.NumFields(); j++ {
+			if wt.Field(j).Name() == "status" {
+				(*ctx).(Struct)[i].(Struct)[j] = a[1]
+			}
+		}
+	}
+}
+
+func init() {
+	for _, n := range []string{"JSON", "Status"} {
+		n := n
+		reg("(*github.com/gin-gonic/gin.Context)."+n, func(m *Machine, fr *frame, a []Value) Value {
+			m.trace = append(m.trace, Event{Name: "gin." + n, Args: a[1:]})
+			ginSetStatus(fr, a)
+			return nil
+		})
+	}
 }
